@@ -460,6 +460,12 @@ def _split_tuple_assignments(tree):
                 for t, v in zip(n.targets[0].elts, n.value.elts):
                     out.append(ast.copy_location(ast.Assign(targets=[t], value=v, type_comment=None), n))
                 return out
+            # `X = a if c else b`  is  `if c: X = a / else: X = b`   (branch edges carry the condition for the rules)
+            if len(n.targets) == 1 and isinstance(n.value, ast.IfExp) and os.environ.get("VERIF_KEEP_IFEXP") != "1":
+                a = ast.copy_location(ast.Assign(targets=[n.targets[0]], value=n.value.body, type_comment=None), n)
+                b = ast.copy_location(ast.Assign(targets=[copy_target(n.targets[0])], value=n.value.orelse, type_comment=None), n)
+                return ast.copy_location(ast.If(test=n.value.test, body=[self.visit_Assign(a)] if not isinstance(self.visit_Assign(a), list) else self.visit_Assign(a),
+                                                orelse=[self.visit_Assign(b)] if not isinstance(self.visit_Assign(b), list) else self.visit_Assign(b)), n)
             # `X = X + e` (X a name or attribute path not occurring in e) is `X += e`
             if len(n.targets) == 1 and isinstance(n.targets[0], (ast.Name, ast.Attribute)) and isinstance(n.value, ast.BinOp) \
                     and isinstance(n.value.op, (ast.Add, ast.Sub)) and dotted(n.targets[0]) is not None \
@@ -468,7 +474,18 @@ def _split_tuple_assignments(tree):
                 if not any(dotted(x) == t for x in ast.walk(n.value.right)):
                     return ast.copy_location(ast.AugAssign(target=n.targets[0], op=n.value.op, value=n.value.right), n)
             return n
+        def visit_Return(self, n):
+            if isinstance(n.value, ast.IfExp) and os.environ.get("VERIF_KEEP_IFEXP") != "1":
+                a = ast.copy_location(ast.Return(value=n.value.body), n)
+                b = ast.copy_location(ast.Return(value=n.value.orelse), n)
+                return ast.copy_location(ast.If(test=n.value.test, body=[self.visit_Return(a)], orelse=[self.visit_Return(b)]), n)
+            return n
     return ast.fix_missing_locations(T().visit(tree))
+
+
+def copy_target(t):
+    import copy as _c
+    return _c.deepcopy(t)
 
 
 def _descends(x, fi):
